@@ -3,7 +3,7 @@
 DUT: luna.gateware.usb.usb3.link.data.DataPacketReceiver (real code) behind a harness-side ResetInserter (the reset is
   pulsed between the sub-sessions of a case; a case is several sub-sessions because elaborating the CRC-32 costs seconds).
 Workload (link-partner model, rv/ref/c35_usb3link.py): sub-sessions of 8 packets; data packet headers + payloads of every
-  length mod 4 (0..70 mostly, some up to 300, 1024 in the thorough tier), header fields random; damaged variants: one CRC-32
+  length mod 4 (0..70 mostly, some up to 300, about 2 % at or next to the 1024-byte maximum), header fields random; damaged variants: one CRC-32
   bit flipped, one payload bit flipped, two CRC bytes swapped, header CRC-16 / CRC-5 wrong in one bit, payload aborted
   with EDB EDB EDB EPF at every offset (also exactly where the CRC is due), payload shorter / longer than the header's
   length, a K-symbol inside the payload, a payload crafted so that the END framing that follows it equals its CRC-32 while
@@ -40,7 +40,7 @@ RULE = ("case = 16 sub-sessions (DUT reset between) x 8 packets: data packets of
         "(CRC-32/payload/header CRC bit flips, aborts, short/long, K-symbol, missing CRC), other traffic between, not-valid words at "
         "random density and directed before each word role; non-trivial = >=1 damaged packet, >=1 not-valid word inside a payload "
         "and before a CRC word; distinct = hash of the complete word script")
-REQUIRED_BINS = ["ctrl_symbol_in_last_payload_word", "good_len_mod4_0", "good_len_mod4_1", "good_len_mod4_2", "good_len_mod4_3", "zlp_good", "zlp_bad_crc", "good_long",
+REQUIRED_BINS = ["ctrl_symbol_in_last_payload_word", "good_len_mod4_0", "good_len_mod4_1", "good_len_mod4_2", "good_len_mod4_3", "zlp_good", "zlp_bad_crc", "good_long", "good_max_size_1024", "bad_max_size_1024",
                  "bad_crc32_flip", "bad_payload_flip", "bad_crc_swap", "bad_hdr_crc16", "bad_hdr_crc5", "abort_mid", "abort_at_crc",
                  "short_payload", "long_payload", "ctrl_in_payload", "nondata_header", "link_command_between", "dph_without_dpp",
                  "gap_in_header", "gap_before_dppstart", "gap_before_first_payload", "gap_in_payload", "gap_before_crc_word",
@@ -169,8 +169,9 @@ class Session:
             return rng.randint(1, 16)
         if r < 0.90:
             return rng.randint(17, 70)
-        if self.tier == "thorough" and r > 0.985:
-            return rng.choice([1024, 1023, 1021, 512])
+        if r > 0.98:
+            # the maximum packet size and its neighbours (byte-counter width boundary), in both tiers
+            return rng.choice([1024, 1024, 1024, 1023, 1022, 1021, 1020, 512])
         return rng.randint(71, 300)
 
     def packet(self, kind=None, directed=None):
@@ -338,6 +339,10 @@ class Session:
                 res.bin("good_len_mod4_%d" % (n % 4))
             if n > 70:
                 res.bin("good_long")
+            if n == 1024:
+                res.bin("good_max_size_1024")
+        elif n == 1024 and pkt["expect"] == "bad":
+            res.bin("bad_max_size_1024")
         elif n == 0 and kind in ("crc32_flip", "crc_swap"):
             res.bin("zlp_bad_crc")
         self.packets.append(pkt)
